@@ -19,7 +19,10 @@ RULE = ("per named curve: encodings (raw/uncompressed/compressed/hybrid) of poin
         "curve points, INFINITY; SPKI wrapper "
         "variants (algorithm OID, unknown / other curve OID, unused bits, raw form, trailing data at every level, NULL / "
         "explicit parameters, wrong tags, non-minimal and indefinite lengths) + random mutations, DER and PEM; toy "
-        "curves (h = 1 and h = 4): every 2-byte string and every (prefix, x, y) in a grid. A case is distinct by its "
+        "curves (declared cofactors 1-5, and CurveFp objects created WITHOUT the cofactor whose true cofactor is 2, 3, 4, 5, incl. a "
+        "244-point curve over GF(223) and SECP112r2's parameters without h): every 2-byte string and every (prefix, x, y) in a "
+        "grid; every loader argument is handed over round-robin as bytes / bytearray / memoryview of either / array('B') (PEM: "
+        "bytes / bytearray / str). A case is distinct by its "
         "operation line; non-trivial = the input reaches the point decoder (has one of the three accepted lengths) or "
         "the DER wrapper parser")
 LEANCHECK = ["Props.C08"]
@@ -236,13 +239,15 @@ def correspond(ctx):
     from ecdsa import VerifyingKey, curves as C, ellipticcurve as EC, ecdsa as E, der
     cis = named(ctx)
     c = Corr(ctx, "pubkey")
+    rotn = K.Rot()
     with K.Hooks() as hk:
         for ci in cis:
             cv, ct = ci.cv, K.curve_tok(ci.cv)
             c.add("curve_info " + ct, lambda: "%d %d %s" % (cv.baselen, cv.verifying_key_length, hx(cv.encoded_oid)), "table")
             c.add("find_curve [%s]" % ",".join(map(str, cv.oid)), lambda: C.find_curve(tuple(cv.oid)).name, "table")
             for (bs, tag) in cand_stream(ctx, ci):
-                out = K.real(hk, lambda: VerifyingKey.from_string(bs, cv))
+                arg = K.wrap(rotn.pick(False, bs), bs)       # every argument type the loaders accept, round-robin
+                out = K.real(hk, lambda: VerifyingKey.from_string(arg, cv))
                 K.add(c, "vk_from_string %s %s 1 %s %s" % (ct, hx(bs), hk.sqrt_tok(), hk.sub_tok()), out, K.fmt_vk, tag)
                 if tag.startswith(("valid", "off-curve", "hybrid", "alias", "order-", "special")):
                     out = K.real(hk, lambda: VerifyingKey.from_string(bs, cv, validate_point=False))
@@ -287,22 +292,28 @@ def correspond(ctx):
         c.run()
         # toy curves (user-defined Curve objects)
         c = Corr(ctx, "pubkey-toy")
-        for t in K.TOYS:
-            ci = K.toy_curve(*t)
-            if ci is None:
-                continue
+        rot = K.Rot()
+        for ci in K.all_toys():
             cv, ct = ci.cv, K.curve_tok(ci.cv)
-            cands = [bytes(b) for b in itertools.product(range(0, 256, 1 if not ctx.quick else 3), repeat=2)]
-            cands += [bytes((f, x, y)) for f in (0, 2, 4, 5, 6, 7) for x in list(range(ci.p + 1)) for y in list(range(ci.p + 1))]
-            for bs in cands:
+            for bs in K.toy_candidates(ci, 1 if not ctx.quick else 3):
+                kind = rot.pick(False, bs)
+                arg = K.wrap(kind, bs)
+                out = K.real(hk, lambda: VerifyingKey.from_string(arg, cv))
+                K.add(c, "vk_from_string %s %s 1 %s %s" % (ct, hx(bs), hk.sqrt_tok(), hk.sub_tok()), out, K.fmt_vk,
+                      "toy-h%s%s/%s" % (ci.h, "" if ci.declared_h is not None else "-undeclared", kind))
+        # a named curve's parameters on a CurveFp created without the cofactor (cofactor() is None: the test must run)
+        for ci in extra_named(ctx):
+            cv, ct = ci.cv, K.curve_tok(ci.cv)
+            for (bs, tag) in cand_stream(ctx, ci):
                 out = K.real(hk, lambda: VerifyingKey.from_string(bs, cv))
-                K.add(c, "vk_from_string %s %s 1 %s %s" % (ct, hx(bs), hk.sqrt_tok(), hk.sub_tok()), out, K.fmt_vk, "toy-h%d" % ci.h)
+                K.add(c, "vk_from_string %s %s 1 %s %s" % (ct, hx(bs), hk.sqrt_tok(), hk.sub_tok()), out, K.fmt_vk, "undeclared-h/" + tag)
         c.run()
         # DER / PEM wrapper
         c = Corr(ctx, "pubkey-der")
         for ci in cis:
             for (buf, tag) in der_stream(ctx, ci, cis):
-                out = K.real(hk, lambda: VerifyingKey.from_der(buf))
+                arg = K.wrap(rotn.pick(False, buf), buf)
+                out = K.real(hk, lambda: VerifyingKey.from_der(arg))
                 K.add(c, "vk_from_der %s %s %s" % (hx(buf), hk.sqrt_tok(), hk.sub_tok()), out, K.fmt_vkc, "der-" + tag)
                 if tag in ("good", "alg-rsa", "unknown-curve", "raw-form", "trailing-top", "unused-1") or tag.startswith("good"):
                     pem = K.pem(buf, "PUBLIC KEY")
@@ -312,19 +323,40 @@ def correspond(ctx):
 
 
 # ------------------------------------------------------------------------------------------------
-def check_string(ctx, ci, bs, tag, VerifyingKey, MalformedPointError):
-    """the property at one (curve, byte string): returns the violation record or None"""
+def curve_desc(ci):
+    if ci.cv.name in [c.name for c in __import__("ecdsa").curves.curves]:
+        return ci.name
+    return {"p": ci.p, "a": ci.a, "b": ci.b, "G": list(ci.G), "n": ci.n, "h": ci.h, "declared_h": ci.declared_h}
+
+
+def curve_of_desc(cv):
+    from ecdsa import curves as C
+    if isinstance(cv, str):
+        return K.CurveInfo(next(c for c in C.curves if c.name == cv))
+    for ci in K.all_toys() + [K.named_without_h(C.SECP112r2, 4)]:
+        if (ci.p, ci.a, ci.b, ci.declared_h) == (cv["p"], cv["a"], cv["b"], cv.get("declared_h", cv.get("h"))):
+            return ci
+    return None
+
+
+def extra_named(ctx):
+    from ecdsa import curves as C
+    return [K.named_without_h(C.SECP112r2, 4)]
+
+
+def check_string(ctx, ci, bs, tag, VerifyingKey, MalformedPointError, kind="bytes"):
+    """the property at one (curve, byte string handed over as `kind`): returns the violation record or None"""
     exp = K.expected_point(ci, bs)
     try:
-        got = K.vk_xy(VerifyingKey.from_string(bs, ci.cv))
+        got = K.vk_xy(VerifyingKey.from_string(K.wrap(kind, bs), ci.cv))
     except MalformedPointError:
         got = None
     except Exception as e:  # noqa
         got = "exception " + common.errname(e)
     if got == exp:
         return None
-    rec = {"input": {"entry": "VerifyingKey.from_string", "curve": ci.name if ci.subgroup is None else
-                     {"p": ci.p, "a": ci.a, "b": ci.b, "G": list(ci.G), "n": ci.n, "h": ci.h}, "bytes": bytes(bs).hex(), "class": tag},
+    rec = {"input": {"entry": "VerifyingKey.from_string", "curve": curve_desc(ci), "bytes": bytes(bs).hex(), "class": tag,
+                     "argument_type": kind},
            "observed": got if not isinstance(got, tuple) else list(got),
            "expected": "MalformedPointError" if exp is None else list(exp)}
     if exp is None and isinstance(got, tuple):
@@ -370,12 +402,13 @@ def search(ctx):
     n_eval = 0
     k2 = 0
     found = []      # string-level failures; K2 labels are confirmed against the composed model before reporting
+    rots = K.Rot()
     # 1. named curves, structured stream
     for ci in cis:
         for (bs, tag) in cand_stream(ctx, ci):
             n_eval += 1
             ctx.hist("search.class", tag.split("-")[0] if tag.startswith(("prefix", "length")) else tag)
-            rec = check_string(ctx, ci, bs, tag, VerifyingKey, MalformedPointError)
+            rec = check_string(ctx, ci, bs, tag, VerifyingKey, MalformedPointError, kind=rots.pick(False, bs))
             if rec:
                 found.append(rec)
         # point objects with validation on
@@ -401,20 +434,21 @@ def search(ctx):
                 if rec:
                     ctx.violation(rec)
     # 2. toy curves: exhaustive truth table
-    for t in K.TOYS:
-        ci = K.toy_curve(*t)
-        if ci is None:
-            continue
-        step = 1 if not ctx.quick else 2
-        cands = [bytes(b) for b in itertools.product(range(256), repeat=2)][::step]
-        cands += [bytes((f, x, y)) for f in range(9) for x in list(range(ci.p + 2)) + [255] for y in list(range(ci.p + 2)) + [255]]
-        cands += [b"", b"\x04", b"\x02", bytes([4, 1, 2, 3])]
+    rot = K.Rot()
+    for ci in K.all_toys():
+        cands = K.toy_candidates(ci, 1 if not ctx.quick else 2)
         for bs in cands:
             n_eval += 1
-            rec = check_string(ctx, ci, bs, "toy-h%d" % ci.h, VerifyingKey, MalformedPointError)
+            rec = check_string(ctx, ci, bs, "toy-h%d" % ci.h, VerifyingKey, MalformedPointError, kind=rot.pick(False, bs))
             if rec:
                 found.append(rec)
-        ctx.hist("search.class", "toy-h%d" % ci.h, len(cands))
+    for ci in extra_named(ctx):
+        for (bs, tag) in cand_stream(ctx, ci):
+            n_eval += 1
+            rec = check_string(ctx, ci, bs, "undeclared-h/" + tag, VerifyingKey, MalformedPointError)
+            if rec:
+                found.append(rec)
+        ctx.hist("search.class", "toy-h%d%s" % (ci.h, "" if ci.declared_h is not None else "-undeclared"), len(cands))
     confirm_k2(ctx, found)
     for rec in found:
         if rec.get("known") == "K2":
@@ -431,13 +465,14 @@ def search(ctx):
                 n_eval += 1
                 exp, why = expected_der(cis, buf)
                 try:
-                    vk = VerifyingKey.from_der(buf) if entry == "der" else VerifyingKey.from_pem(K.pem(buf, "PUBLIC KEY"))
+                    kind = rots.pick(entry == "pem", buf if entry == "der" else K.pem(buf, "PUBLIC KEY"))
+                    vk = VerifyingKey.from_der(K.wrap(kind, buf)) if entry == "der" else VerifyingKey.from_pem(K.wrap(kind, K.pem(buf, "PUBLIC KEY")))
                     got = ("ok", vk.curve.name) + K.vk_xy(vk)
                 except Exception as e:  # noqa
                     got = common.errname(e)
                 ctx.hist("search.der", why)
                 if got not in exp:
-                    rec = {"input": {"entry": "VerifyingKey.from_" + entry, "bytes": buf.hex(), "class": tag},
+                    rec = {"input": {"entry": "VerifyingKey.from_" + entry, "bytes": buf.hex(), "class": tag, "argument_type": kind},
                            "observed": got, "expected": sorted(map(str, exp))}
                     ctx.violation(rec)
     ctx.cov["search_evaluations"] = n_eval
@@ -451,16 +486,9 @@ def replay(rec):
     i = rec["input"]
     cis = [K.CurveInfo(c) for c in C.curves]
     if i["entry"] == "VerifyingKey.from_string":
-        cv = i["curve"]
-        ci = next(x for x in cis if x.name == cv) if isinstance(cv, str) else None
-        if ci is None:
-            for t in K.TOYS:
-                ci = K.toy_curve(*t)
-                if ci and (ci.p, ci.a, ci.b) == (cv["p"], cv["a"], cv["b"]):
-                    break
-        class Dummy:  # noqa
-            rng = None
-        r = check_string(None, ci, bytes.fromhex(i["bytes"]), i.get("class", ""), VerifyingKey, MalformedPointError)
+        ci = curve_of_desc(i["curve"])
+        r = check_string(None, ci, bytes.fromhex(i["bytes"]), i.get("class", ""), VerifyingKey, MalformedPointError,
+                         kind=i.get("argument_type", "bytes"))
         return r is not None
     if i["entry"] == "VerifyingKey.from_public_point" and "point_object" in i:
         ci = next(x for x in cis if x.name == i["curve"])
@@ -470,7 +498,8 @@ def replay(rec):
         buf = bytes.fromhex(i["bytes"])
         exp, _ = expected_der(cis, buf)
         try:
-            vk = VerifyingKey.from_der(buf) if i["entry"].endswith("der") else VerifyingKey.from_pem(K.pem(buf, "PUBLIC KEY"))
+            kind = i.get("argument_type", "bytes")
+            vk = VerifyingKey.from_der(K.wrap(kind, buf)) if i["entry"].endswith("der") else VerifyingKey.from_pem(K.wrap(kind, K.pem(buf, "PUBLIC KEY")))
             got = ("ok", vk.curve.name) + K.vk_xy(vk)
         except Exception as e:  # noqa
             got = common.errname(e)
